@@ -449,76 +449,96 @@ func enumC20(env *EnumEnv, it *WorkItem) *EnumResult {
 		seq  []bCall
 		left int // calls still allowed after the first misuse (-1 = no misuse yet)
 	}
-	seenKey := map[string]bool{}
 	distinct := map[string]bool{}
 	reported := map[string]bool{}
-	frontier := []node{{seq: nil, left: -1}}
 	idx := 0
 	g := &budgetGuard{env: env, res: res}
-	for len(frontier) > 0 && !g.expired {
-		g.phase = fmt.Sprintf("call sequences of length %d", len(frontier[0].seq)+1)
-		var next []node
-		for _, nd := range frontier {
-			for _, c := range builderAlphabet {
-				seq := append(append([]bCall{}, nd.seq...), c)
-				// the reference decides what kind of state this is
-				ref := newRef("plan")
-				for i, cc := range seq {
-					ref.apply(cc, i)
+	// Correct prefixes are extended in order of their length (merged by abstract state, so there are few); what follows a
+	// first misuse is walked depth first and never stored - there are alphabet^tail sequences behind every misuse. A
+	// Reset inside such a tail leads back to a correct prefix, possibly a longer one than the breadth-first order would
+	// find for the same state: the shortest prefix per state wins, whenever it is found.
+	pending := map[int][]node{0: {{seq: nil, left: -1}}}
+	seenLen := map[string]int{}
+	var visit func(parent []bCall, parentLeft int, c bCall)
+	visit = func(parent []bCall, parentLeft int, c bCall) {
+		if g.expired {
+			return
+		}
+		seq := append(append(make([]bCall, 0, len(parent)+1), parent...), c)
+		// the reference decides what kind of state this is
+		ref := newRef("plan")
+		for i, cc := range seq {
+			ref.apply(cc, i)
+		}
+		left := parentLeft
+		switch {
+		case !ref.misuse:
+			left = -1
+		case parentLeft == -1:
+			left = tail
+		default:
+			left = parentLeft - 1
+		}
+		idx++
+		mine := idx%it.NShards == it.Shard
+		// distinct cases: (abstract state reached, last call); counted in the shard the key hashes to
+		dk := ref.key() + "<" + string(c)
+		if int(hashStr(dk)%uint64(it.NShards)) == it.Shard && !distinct[dk] {
+			distinct[dk] = true
+			res.Distinct++
+		}
+		if mine && !g.over() {
+			res.Evaluations++
+			if rule, sig, msg := checkBuilderSeq(seq); rule != "" {
+				k := rule + "|" + sig
+				if !reported[k] {
+					reported[k] = true
+					res.Found = append(res.Found, &EnumFound{V: Violation{Property: "C20", Rule: rule, Signature: sig, Msg: msg}, Input: seq})
 				}
-				left := nd.left
-				switch {
-				case !ref.misuse:
-					left = -1
-				case nd.left == -1:
-					left = tail
-				default:
-					left = nd.left - 1
-				}
-				idx++
-				mine := idx%it.NShards == it.Shard
-				// distinct cases: (abstract state reached, last call); counted in the shard the key hashes to
-				dk := ref.key() + "<" + string(c)
-				if int(hashStr(dk)%uint64(it.NShards)) == it.Shard && !distinct[dk] {
-					distinct[dk] = true
-					res.Distinct++
-				}
-				if mine && !g.over() {
-					res.Evaluations++
-					if rule, sig, msg := checkBuilderSeq(seq); rule != "" {
-						k := rule + "|" + sig
-						if !reported[k] {
-							reported[k] = true
-							res.Found = append(res.Found, &EnumFound{V: Violation{Property: "C20", Rule: rule, Signature: sig, Msg: msg}, Input: seq})
-						}
-					}
-					if len(res.Samples) < 3 && len(seq) >= 5 && !ref.misuse {
-						res.Samples = append(res.Samples, fmt.Sprint(seq))
-					}
-				}
-				if len(seq) >= depth && left == -1 {
-					continue
-				}
-				if left == 0 {
-					continue
-				}
-				if left == -1 {
-					k := fmt.Sprintf("%d|%s", len(seq), ref.key())
-					_ = k
-					k2 := ref.key()
-					if seenKey[k2] {
-						continue // an equivalent correct prefix (not longer than this one) is already being extended
-					}
-					seenKey[k2] = true
-				}
-				if len(seq) >= depth+tail {
-					continue
-				}
-				next = append(next, node{seq: seq, left: left})
+			}
+			if len(res.Samples) < 3 && len(seq) >= 5 && !ref.misuse {
+				res.Samples = append(res.Samples, fmt.Sprint(seq))
 			}
 		}
-		frontier = next
+		if (len(seq) >= depth && left == -1) || left == 0 || len(seq) >= depth+tail {
+			return
+		}
+		if left == -1 {
+			k := ref.key()
+			if l, ok := seenLen[k]; ok && l <= len(seq) {
+				return // an equivalent correct prefix that is not longer is (or will be) extended
+			}
+			seenLen[k] = len(seq)
+			pending[len(seq)] = append(pending[len(seq)], node{seq: seq, left: -1})
+			return
+		}
+		for _, c2 := range builderAlphabet {
+			visit(seq, left, c2)
+		}
 	}
+	states := 0
+	for L := 0; L < depth && !g.expired; L++ {
+		g.phase = fmt.Sprintf("extensions of the correct prefixes of length %d (and everything behind their first misuse)", L)
+		done := map[string]bool{}
+		for _, nd := range pending[L] {
+			ref := newRef("plan")
+			for i, cc := range nd.seq {
+				ref.apply(cc, i)
+			}
+			k := ref.key()
+			if L > 0 && (seenLen[k] < L || done[k]) {
+				continue // a shorter prefix for the same state turned up later, or this length was already taken
+			}
+			done[k] = true
+			states++
+			for _, c := range builderAlphabet {
+				visit(nd.seq, -1, c)
+			}
+		}
+		delete(pending, L)
+	}
+	seenKey := seenLen
+	_ = states
 	res.Notes = append(res.Notes, fmt.Sprintf("depth %d for correct prefixes (merged by abstract builder state: %d states), %d further calls after the first misuse", depth, len(seenKey), tail))
 	return res
 }
